@@ -91,6 +91,26 @@ def run(program, res, tier):
     from ..report import Relabel
     from . import c06
     c06._s2(program, NodeModel(program), Relabel(res, {"*": "C27-S6"}))
+    res.rule("C27-S8", "whole-partition aggregators are rejected in ordered windows (SQL would compute a running aggregate)")
+    er = program.module("expr_rep")
+    contra = er.consts.get("fn_names_that_contradict_ordered_windowed_situation")
+    if not isinstance(contra, ast.Set):
+        raise AnalysisError("anchor vanished: expr_rep.fn_names_that_contradict_ordered_windowed_situation (set literal)")
+    cset = {e.value for e in contra.elts if isinstance(e, ast.Constant)}
+    # the list is consulted when the node is built
+    ext_init = program.cls("view_representations", "ExtendNode").methods["__init__"]
+    used = any("fn_names_that_contradict_ordered_windowed_situation" in unparse(n_) for n_ in ast.walk(ext_init.node) if isinstance(n_, ast.Compare))
+    if not used:
+        res.fail_at("C27-S8", ext_init, "contradiction-list-unused", "ExtendNode.__init__ no longer rejects the names of fn_names_that_contradict_ordered_windowed_situation in ordered windows")
+    from .. import facts as _facts
+    for nm in sorted(_facts.WHOLE_PARTITION_AGGREGATORS):
+        if nm in cset:
+            res.ok("C27-S8", f"`{nm}` (whole-partition aggregate) is rejected in an ordered window")
+        else:
+            res.fail("C27-S8", "expr_rep:fn_names_that_contradict_ordered_windowed_situation", f"ordered-window-accepts:{nm}",
+                     f"`x.{nm}()` is accepted in extend(…, partition_by=…, order_by=…): Pandas computes it over the whole partition, SQL's default window frame "
+                     f"makes it a running aggregate (x=[1,2,6] ordered: mean gives [3,3,3] on Pandas and [1,1.5,3] on SQLite) — the siblings sum/max/min/count are "
+                     f"rejected for this reason", "data_algebra/expr_rep.py", getattr(contra, "lineno", 0))
     res.rule("C27-S7", "SQL: a windowed term is not merged into the SELECT that recomputes its partition / order keys")
     from . import c04
     c04._s1c(program, Relabel(res, {"*": "C27-S7"}))
